@@ -1,4 +1,6 @@
 import PyrefactModel.Layout
+import PyrefactModel.BlankLines
+import PyrefactModel.Minimize
 /-!
 # C11 — layout stages change whitespace only (line / whitespace algebra)
 
@@ -18,6 +20,41 @@ whitespace-only stretches: any number of such replacements keeps the non-whitesp
 theorem whitespace_replacement_only_whitespace (a w w' b : List Char) (hw : ∀ c ∈ w, isWs c = true)
     (hw' : ∀ c ∈ w', isWs c = true) : nonWs (a ++ w' ++ b) = nonWs (a ++ w ++ b) :=
   ws_replace_nonWs a w w' b hw hw'
+
+/-- **`fix_too_many_blank_lines`** (the three `re.sub` calls, modelled character by character and tied byte for byte):
+every line that carries a non-whitespace character survives verbatim — indentation included — and in order; what is
+added or removed are whitespace-only lines.  For every text. -/
+theorem blanklines_nonblank_lines_verbatim (s : List Char) :
+    BlankLines.nbl (BlankLines.fixBlankLines s) = BlankLines.nbl s := BlankLines.fixBlankLines_nbl s
+
+/-- each of the three substitutions on its own, behind any prefix (so also when applied in another order) -/
+theorem blanklines_each_substitution (s p : List Char) :
+    BlankLines.nbl (p ++ BlankLines.sub1 s) = BlankLines.nbl (p ++ s) ∧
+    BlankLines.nbl (p ++ BlankLines.sub2 s) = BlankLines.nbl (p ++ s) ∧
+    BlankLines.nbl (p ++ BlankLines.sub3 s) = BlankLines.nbl (p ++ s) :=
+  ⟨(BlankLines.sub1_sim s p).symm, (BlankLines.sub2_sim s p).symm, (BlankLines.sub3_sim s p).symm⟩
+
+-- non-vacuity (evaluated by the compiler; the substitutions recurse on the text behind the whitespace run, which the kernel
+-- does not unfold): five blank lines inside a function body, one of them with blanks, are reduced to one …
+#guard BlankLines.fixBlankLines "def f():\n    a = 1\n\n  \n\n\n\n    b = 2\n".toList == "def f():\n    a = 1\n\n    b = 2\n".toList
+#guard BlankLines.fixBlankLines "import os\n\n\n\n\n\nx = 1\n\n\n".toList == "import os\n\n\nx = 1\n".toList
+/-- … and the statements are the non-blank lines before and after -/
+example : BlankLines.nbl "def f():\n    a = 1\n\n  \n\n\n\n    b = 2\n".toList = ["def f():".toList, "    a = 1".toList, "    b = 2".toList] := by
+  decide
+
+/-- **the final whitespace diff minimisation** rebuilds a text with exactly the non-whitespace characters of the
+formatted text, for every diff script the line differ may produce (hint lines included) -/
+theorem minimize_only_whitespace (sc : Minimize.Script) :
+    Minimize.nonSp (Minimize.minimize sc) = Minimize.nonSp (Minimize.newText sc) := Minimize.minimize_nonSp sc
+
+/-- … and is the formatted text itself when no whitespace-only group was added or removed -/
+theorem minimize_identity_without_blank_groups (sc : Minimize.Script)
+    (h : ∀ sg ∈ Minimize.segments sc, (sg.1 = .plus → Minimize.blankSeg sg.2 = false) ∧ (sg.1 = .minus → Minimize.blankSeg sg.2 = false)) :
+    Minimize.minimize sc = Minimize.newText sc := Minimize.minimize_eq_new sc h
+
+/-- non-vacuity: a removed blank line is restored, an added blank line is dropped, a changed line is taken over -/
+example : Minimize.minimize [(.same, "a\n".toList), (.minus, "\n".toList), (.same, "b\n".toList), (.plus, "  \n".toList), (.minus, "c=1\n".toList), (.plus, "c = 1\n".toList)]
+    = "a\n\nb\nc = 1\n".toList := by decide
 
 /-- the full statement "layout stages preserve the value of string literals" -/
 def LayoutPreservesLiterals : Prop := ∀ s : List Char, expandTabs s = s ∨ ('\t' ∈ s → False)
